@@ -64,6 +64,9 @@ def gen(seed, tier="quick"):
         dt_imu -= dt_sim
     if knobs.random() < 0.12:
         dt_imu = knobs.choice([0.25, 0.5]) * dt_sim  # a sensor period below the simulation step: published every step
+    corner = knobs.random()
+    if corner < 0.08:
+        dt_sim = dt_imu = 1 / 1000  # the fastest supported IMU: every sample 1 ms apart (the node's own tolerance is 1 ms)
     dt_mag = knobs.choice([dt_imu, 2 * dt_imu, 0.02, 0.05, 0.1, knobs.uniform(dt_imu, 0.1), 0.4 * dt_sim])
     decl = knobs.uniform(-0.5, 0.5)
     # supported field geometry: |inclination| <= 1.0 rad.  The heading update projects the field onto the
@@ -77,6 +80,9 @@ def gen(seed, tier="quick"):
     # domain therefore keeps the accelerometer corrected at least as often as the magnetometer (shipped: both
     # 200 Hz) and |inclination| <= 0.9 rad.
     incl = knobs.uniform(-0.9, 0.9)
+    weak_steep = 0.08 <= corner < 0.16  # weak field at a steep angle: the smallest horizontal component in the domain
+    if weak_steep:
+        incl = knobs.choice([-1, 1]) * knobs.uniform(0.6, 0.9)
     tf = 30.0 if tier == "quick" else knobs.choice([30.0, 40.0])
     dmm = knobs.choice([1 / 200, 1 / 200, 0.01, 0.02, knobs.uniform(0.005, 0.05)])
     dma = min(dmm, knobs.choice([0.0, 1 / 200, 1 / 200, 0.01]))
@@ -97,7 +103,7 @@ def gen(seed, tier="quick"):
             "sim/mag_incl": incl,
             "sim/mag_decl": decl,
             "mrp/mag_decl": decl,
-            "sim/mag_str": knobs.choice([0.1, knobs.uniform(0.05, 0.15), knobs.uniform(0.05, 0.65)]),  # shipped 0.1; weak fields matter for gates in field units
+            "sim/mag_str": knobs.uniform(0.05, 0.07) if weak_steep else knobs.choice([0.1, knobs.uniform(0.05, 0.15), knobs.uniform(0.05, 0.65)]),  # shipped 0.1; weak fields matter for gates in field units
             "sim/g": g_cfg,
             "mrp/g": g_cfg,
             "sim/enable_noise": False,
